@@ -1098,9 +1098,39 @@ class Models:
             return u
         I.unsupported(node, f"lookup in {g.name} by {key!r}")
 
+    def term_view(self, t, node, depth=0):
+        """Abstract view (value, dimension vector) of an interpreted Term object."""
+        st = self.st
+        items = t.fields.get("_items")
+        if not isinstance(items, TupleV) or depth > 6:
+            self.I.unsupported(node, "term object without concrete items")
+        mag = RF.const(1)
+        dims = {}
+        for it in items.items:
+            e, x = it.items
+            ex = self.exp_of(x, node)
+            if ex is None:
+                self.I.unsupported(node, "term exponent")
+            if isinstance(e, UnitV):
+                mag = mag * self.mu(e).pow_sym(ex)
+                for k_, d_ in st.dims_of_type(self.type_of_unit(e)).items():
+                    o = dims.get(k_, (0, 0))
+                    dims[k_] = (o[0] + d_[0] * ex[0], o[1] + d_[0] * ex[1])
+            elif isinstance(e, Num):
+                mag = mag * st.norm(e.rf).pow_sym(ex)
+            elif isinstance(e, ClsV):
+                mag = mag * RF.atom(("rho", st.tfind(e.tid))).pow_sym(ex)
+                o = dims.get(e.tid, (0, 0))
+                dims[e.tid] = (o[0] + ex[0], o[1] + ex[1])
+            else:
+                self.I.unsupported(node, f"term element {e!r}")
+        return TermV(mag, {k_: v_ for k_, v_ in dims.items() if v_ != (0, 0)})
+
     def registry_lookup(self, g, key, node):
         I = self.I
         st = self.st
+        if isinstance(key, ObjV) and key.ci is not None and key.ci.name == "Term":
+            key = self.term_view(key, node)
         if not isinstance(key, TermV):
             I.unsupported(node, "registry lookup by non-term")
         can_zero, must_zero = self.dims_zero(key)
@@ -1129,6 +1159,13 @@ class Models:
         else:
             dk = tuple(sorted(nz))
             tid = self.dim_types.get(dk)
+            if tid is None:
+                # a declared type of exactly this dimension (one type per dimension, R02.5)
+                for t_, _d in list(st.type_dims.items()):
+                    if st._explicit_dims(t_) == dict(nz):
+                        tid = st.tfind(t_)
+                        self.dim_types[dk] = tid
+                        break
             if tid is None:
                 tid = st.new_type()
                 self.dim_types[dk] = tid
